@@ -45,9 +45,20 @@ var (
 	panelCache = map[string]*panelInfo{}
 )
 
+var basePositions, structPositions []*position
+
 func init() {
+	st := map[string]bool{}
+	for _, p := range structuredPositions() {
+		st[p.name] = true
+	}
 	for _, p := range positions {
 		posByName[p.name] = p
+		if st[p.name] {
+			structPositions = append(structPositions, p)
+		} else {
+			basePositions = append(basePositions, p)
+		}
 	}
 }
 
@@ -115,7 +126,7 @@ func literals(toks []chsim.Token) []string {
 }
 
 func panelFor(pos *position, v variant) *panelInfo {
-	key := fmt.Sprintf("%s|%v|%d|%v", pos.name, v.Tick, v.Wrap, v.Big)
+	key := fmt.Sprintf("%s|%v|%d|%v|%d|%d", pos.name, v.Tick, v.Wrap, v.Big, v.Part, v.Op)
 	panelMu.Lock()
 	defer panelMu.Unlock()
 	if pi, ok := panelCache[key]; ok {
@@ -152,7 +163,12 @@ func panelFor(pos *position, v variant) *panelInfo {
 }
 
 func gen(rt *rapid.T) c10case {
-	pos := rapid.SampledFrom(positions).Draw(rt, "pos")
+	// half of the cases go to the structured-value positions (they have many variants)
+	pool := basePositions
+	if rapid.Bool().Draw(rt, "structured") {
+		pool = structPositions
+	}
+	pos := rapid.SampledFrom(pool).Draw(rt, "pos")
 	c := c10case{Pos: pos.name, Payload: evid.Str(genPayload(rt))}
 	if pos.tick && rapid.IntRange(0, 3).Draw(rt, "tick") == 0 {
 		c.Var.Tick = true
@@ -162,6 +178,12 @@ func gen(rt *rapid.T) c10case {
 	}
 	if pos.big && rapid.IntRange(0, 2).Draw(rt, "big") == 0 {
 		c.Var.Big = true
+	}
+	if pos.parts > 1 {
+		c.Var.Part = rapid.IntRange(0, pos.parts-1).Draw(rt, "part")
+	}
+	if pos.ops > 1 {
+		c.Var.Op = rapid.IntRange(0, pos.ops-1).Draw(rt, "op")
 	}
 	return c
 }
@@ -196,6 +218,7 @@ func pred(c c10case, o *evid.Obs) error {
 	o.Tag("pos:" + pos.name)
 	if pi.na {
 		o.Discard("variant-not-applicable")
+		o.Tag("na:" + pos.name)
 		return nil
 	}
 	out, st := statements(pos, p, c.Var)
@@ -254,6 +277,7 @@ func pred(c c10case, o *evid.Obs) error {
 	}
 	for _, l := range lits {
 		if alts[l] {
+			carried++ // a legitimate piece / derived form of the intended value
 			continue
 		}
 		if pi.consts[l] {
@@ -281,7 +305,7 @@ func pred(c c10case, o *evid.Obs) error {
 		// The position did not reach SQL at all (e.g. the >= 15 s metrics shortcut drops
 		// label filters — a C08 matter). C10 is satisfied vacuously: no user byte is in the
 		// statement. Counted, so a generator that never reaches SQL is visible.
-		o.Tag("not-carried")
+		o.Tag("not-carried", "not-carried:"+pos.name)
 		return nil
 	}
 	o.Tag("carried")
